@@ -762,6 +762,8 @@ def mha_configs(ctx, n):
     out[-1]['nqk'] = r2.random() < 0.35
     if out[-1]['nqk']:
       out[-1]['D'] = r2.choice([4, 8])
+    r4 = ctx.rng('attn.mha', 'wrapped_fn', i)
+    out[-1]['wrapped_fn'] = r4.choice([None, None, None, 'kwargs', 'named_and_kwargs'])
     r3 = ctx.rng('attn.mha', 'bpart', i)
     if len(out[-1]['batch']) >= 2 and r3.random() < 0.5:
       # mask / bias broadcasting over one of the two batch dimensions only
@@ -786,6 +788,12 @@ def run_mha_case(ctx, cfg, rg, index):
   z = nn.initializers.zeros_init()
   nqk = cfg.get('nqk', False)
   kw = dict(num_heads=H, qkv_features=H * D, out_features=Fout, use_bias=ub, normalize_qk=nqk)
+  if cfg.get('wrapped_fn'):
+    # a user-supplied attention_fn that forwards its keyword arguments (thin wrapper): mask and bias still have to arrive
+    if cfg['wrapped_fn'] == 'kwargs':
+      kw['attention_fn'] = lambda q, k, v, **kwa: nn.dot_product_attention(q, k, v, **kwa)
+    else:
+      kw['attention_fn'] = lambda q, k, v, bias=None, mask=None, **kwa: nn.dot_product_attention(q, k, v, bias=bias, mask=mask, **kwa)
   whole = nn.MultiHeadDotProductAttention(decode=False, **kw)
   dec = nn.MultiHeadDotProductAttention(decode=True, kernel_init=z, **kw)  # cheap initializer: init is used for the cache only
   skey = ('mha_shapes', H, D, F, Fout, ub, nqk)
